@@ -561,7 +561,85 @@ pub fn g7b_candidate(rng: &mut Rng) -> Option<(ChessBoard, &'static str)> {
     if all_pinned { Some((b, "pinned-only")) } else { None }
 }
 
+/// G7c (added after the third wave of seeded changes, which converged on one family): a pawn gives check by its double
+/// push and capturing it en passant is the ONLY legal reply (or one of at most two).  The generator builds the position
+/// after the push, rejection-samples a crowd of the pusher's officers around the checked king, and returns the
+/// PREDECESSOR position together with the double push as the move to play, so that the successor is reached through
+/// `make_move` (history-dependent defects in the update chain show only there); the successor itself is returned too.
+pub fn g7c_candidate(rng: &mut Rng) -> Option<(ChessBoard, BoardMove, ChessBoard)> {
+    let mut cells: [Option<Piece>; 64] = [None; 64];
+    let pc = if rng.pct(50) { Color::White } else { Color::Black }; // the side that pushes
+    let vc = if pc == Color::White { Color::Black } else { Color::White };
+    let (r2, dir): (i32, i32) = if pc == Color::White { (1, 1) } else { (6, -1) };
+    let f = rng.below(8) as i32;
+    let at = |r: i32, fl: i32| -> Option<usize> { if (0..8).contains(&r) && (0..8).contains(&fl) { Some((r * 8 + fl) as usize) } else { None } };
+    let from = at(r2, f)?;
+    let mid = at(r2 + dir, f)?;
+    let to = at(r2 + 2 * dir, f)?;
+    // the checked king stands diagonally in front of the pushed pawn, the capturing pawn next to it on its rank
+    let kf = if rng.pct(50) { f - 1 } else { f + 1 };
+    let king = at(r2 + 3 * dir, kf)?;
+    let cf = if rng.pct(50) { f - 1 } else { f + 1 };
+    let capt = at(r2 + 2 * dir, cf)?;
+    cells[to] = Some(Piece(PieceType::Pawn, pc));
+    cells[king] = Some(Piece(PieceType::King, vc));
+    cells[capt] = Some(Piece(PieceType::Pawn, vc));
+    let reserved = [from, mid];
+    let mut ok = false;
+    for _ in 0..100 { let s = rng.below(64); if cells[s].is_none() && !reserved.contains(&s) { cells[s] = Some(Piece(PieceType::King, pc)); ok = true; break; } }
+    if !ok { return None; }
+    for _ in 0..rng.range(2, 8) {
+        let (t, c) = if rng.pct(80) { (pt(rng.below(5)), pc) } else { (pt(rng.below(5)), vc) };
+        for _ in 0..50 {
+            let s = rng.below(64);
+            if cells[s].is_some() || reserved.contains(&s) { continue; }
+            if t == PieceType::Pawn && (s < 8 || s >= 56) { continue; }
+            cells[s] = Some(Piece(t, c));
+            break;
+        }
+    }
+    let none = CastlingRights::from_index(0).unwrap();
+    let (half, full) = (0usize, 1 + rng.below(60));
+    let pcs_after: Vec<(Square, Piece)> = (0..64).filter_map(|i| cells[i].map(|p| (sq(i), p))).collect();
+    let after = catch(|| ChessBoard::setup(&pcs_after, vc, none, none, Some(sq(mid)), half, full).ok()).flatten()?;
+    let legal = catch(|| after.get_legal_moves())?;
+    if legal.is_empty() || legal.len() > 2 { return None; }
+    let all_ep = legal.iter().all(|m| match m {
+        BoardMove::MovePiece(pm) => pm.get_piece_type() == PieceType::Pawn && pm.get_destination_square() == sq(mid),
+        _ => false });
+    if !all_ep && legal.len() > 1 { return None; }
+    // predecessor: pawn back on its origin square, pusher to move, no en-passant square
+    let mut cells0 = cells;
+    cells0[to] = None;
+    cells0[from] = Some(Piece(PieceType::Pawn, pc));
+    let pcs_before: Vec<(Square, Piece)> = (0..64).filter_map(|i| cells0[i].map(|p| (sq(i), p))).collect();
+    let full0 = if pc == Color::Black && full > 1 { full - 1 } else { full };
+    let before = catch(|| ChessBoard::setup(&pcs_before, pc, none, none, None, 3, full0).ok()).flatten()?;
+    let push = BoardMove::MovePiece(PieceMove::new(PieceType::Pawn, sq(from), sq(to), None).ok()?);
+    let lb = catch(|| before.get_legal_moves())?;
+    if !lb.contains(&push) { return None; }
+    Some((before, push, after))
+}
+
 pub fn g7(budget: usize, rng: &mut Rng, out: &mut Out, f: &mut dyn FnMut(&mut Out, &Visit, &mut Rng)) {
+    // an eighth of the budget: the G7c pairs (predecessor with the push to play, and the successor itself)
+    {
+        let b3 = (budget / 8).max(4);
+        let mut kept = 0usize;
+        let mut tries = 0usize;
+        while kept < b3 && tries < b3 * 20000 + 1000 && out.room() {
+            tries += 1;
+            out.stats.inc("gen.g7c_candidates");
+            if let Some((before, push, after)) = g7c_candidate(rng) {
+                kept += 2;
+                out.stats.inc("gen.g7_kept_ep-only-evasion");
+                note_position(&mut out.stats, &before, 7);
+                f(out, &Visit { board: &before, played: Some(push), gen: 7 }, rng);
+                note_position(&mut out.stats, &after, 7);
+                f(out, &Visit { board: &after, played: None, gen: 7 }, rng);
+            }
+        }
+    }
     // a quarter of the budget goes to the G7b shapes
     {
         let b2 = (budget / 4).max(6);
@@ -638,7 +716,7 @@ impl Spec {
     fn occupied(&self, s: usize) -> bool { self.pcs[..self.n as usize].iter().any(|p| p.0 as usize == s) }
 }
 
-pub const FAMILY_NAMES: [&str; 6] = ["pins_checks", "castling_paths", "ep_discovered", "promo_capture", "three_same", "corner_capture"];
+pub const FAMILY_NAMES: [&str; 8] = ["pins_checks", "castling_paths", "ep_discovered", "promo_capture", "three_same", "corner_capture", "castle_check", "ep_discover_enemy"];
 
 fn rf(s: usize) -> (i32, i32) { ((s / 8) as i32, (s % 8) as i32) }
 
@@ -1010,6 +1088,83 @@ fn family_corner(v: &mut Vec<Spec>) {
     }
 }
 
+/// Family 6 (third wave): castling that gives check or mate — the enemy king stands on the file the rook arrives on
+/// (f for O-O, d for O-O-O), optionally hemmed in by its own men.
+fn family_castle_check(v: &mut Vec<Spec>) {
+    for c in 0..2u8 {
+        let (own, opp) = if c == 0 { (W, B) } else { (B, W) };
+        let back = if c == 0 { 0usize } else { 56 };
+        for (rr, rook_file, arrive_file) in [(2u8, 7usize, 5usize), (1u8, 0usize, 3usize)] {
+            for kr in 0..8usize {
+                let ks = kr * 8 + arrive_file;
+                if cheb(ks, back + 4) <= 1 || cheb(ks, back + arrive_file) <= 1 || cheb(ks, back + if rr == 2 { 6 } else { 2 }) <= 1 {
+                    continue;
+                }
+                for hem in 0..4u8 {
+                    let mut sp = Spec::new(c, 6);
+                    if c == 0 { sp.wr = rr } else { sp.br = rr }
+                    sp.put(back + 4, K + own);
+                    sp.put(back + rook_file, R + own);
+                    if !sp.put(ks, K + opp) { continue; }
+                    // hem the enemy king in with its own men on the neighbouring files (mate patterns)
+                    if hem & 1 != 0 {
+                        for df in [-1i32, 1] {
+                            let f = arrive_file as i32 + df;
+                            if (0..8).contains(&f) { sp.put(kr * 8 + f as usize, R + opp); }
+                        }
+                    }
+                    if hem & 2 != 0 {
+                        let r2 = if c == 0 { kr as i32 - 1 } else { kr as i32 + 1 };
+                        if (0..8).contains(&r2) {
+                            for df in [-1i32, 1] {
+                                let f = arrive_file as i32 + df;
+                                if (0..8).contains(&f) { sp.put(r2 as usize * 8 + f as usize, P + opp); }
+                            }
+                        }
+                    }
+                    v.push(sp);
+                }
+            }
+        }
+    }
+}
+
+/// Family 7 (third wave): an en-passant capture that DISCOVERS a check on the enemy king — own slider, the captured
+/// pawn (or the capturing pawn) and the enemy king on one line.
+fn family_ep_discover_enemy(v: &mut Vec<Spec>) {
+    for stm in 0..2u8 {
+        let (own, opp) = if stm == 0 { (W, B) } else { (B, W) };
+        let (pr, er, or) = if stm == 0 { (4usize, 5usize, 6usize) } else { (3, 2, 1) };
+        for f in 0..8usize {
+            for gf in [f.wrapping_sub(1), f + 1] {
+                if gf >= 8 { continue; }
+                let (own_p, opp_p, ep, origin) = (pr * 8 + f, pr * 8 + gf, er * 8 + gf, or * 8 + gf);
+                for k in 0..64 {
+                    if [own_p, opp_p, ep, origin].contains(&k) { continue; }
+                    for s in 0..64 {
+                        if [own_p, opp_p, ep, origin, k].contains(&s) { continue; }
+                        let al = aligned(k, s);
+                        if al == 0 { continue; }
+                        let bt = between(k, s);
+                        if !bt.contains(&own_p) && !bt.contains(&opp_p) { continue; }
+                        let sliders: [u8; 2] = if al == 1 { [R, Q] } else { [BI, Q] };
+                        for sl in sliders {
+                            let mut sp = Spec::new(stm, 7);
+                            sp.auto_king = if stm == 0 { 1 } else { 2 };
+                            sp.ep = ep as i8;
+                            sp.put(k, K + opp);
+                            sp.put(own_p, P + own);
+                            sp.put(opp_p, P + opp);
+                            sp.put(s, sl + own);
+                            v.push(sp);
+                        }
+                    }
+                }
+            }
+        }
+    }
+}
+
 pub fn g3_specs() -> Vec<Spec> {
     let mut v = Vec::new();
     family_pins_checks(&mut v);
@@ -1018,6 +1173,8 @@ pub fn g3_specs() -> Vec<Spec> {
     family_promo(&mut v);
     family_three(&mut v);
     family_corner(&mut v);
+    family_castle_check(&mut v);
+    family_ep_discover_enemy(&mut v);
     v
 }
 
